@@ -385,6 +385,7 @@ generate!
 				{
 					match f.read(&mut temp)
 					{
+						Ok(0) => break, // end of file before the reported length
 						Ok(cnt) =>
 						{
 							if len - pos < cnt
